@@ -54,6 +54,17 @@ Theorem C05_column_pk_marker : forall t d, SqlColProofs.keeps_typ t = true -> Sq
 Proof. exact SqlColProofs.col_roundtrip_pk. Qed.
 Print Assumptions C05_column_pk_marker.
 
+(* the foreign-key marker "[FK(target)] " becomes ForeignKey("target"), the rest of the description the comment, and the marker is
+   rebuilt in front of it on the way back: for EVERY target without a closing square bracket and every such description *)
+From CDD Require SqlColFkProofs.
+Theorem C05_column_fk_marker : forall t f d, SqlColProofs.keeps_typ t = true -> SqlColFkProofs.target_ok f = true -> SqlColProofs.head_ok d = true ->
+  match last_opt d with Some c => negb (N.eqb c SqlCol.DOT) | None => false end = true ->
+  let p := {| SqlCol.p_typ := t; SqlCol.p_doc := Some (s2l "[FK(" ++ f ++ s2l ")] " ++ d); SqlCol.p_default := None |} in
+  SqlCol.c_fk (SqlCol.emit_col p) = Some f /\ SqlCol.c_comment (SqlCol.emit_col p) = Some d /\ SqlCol.c_pk (SqlCol.emit_col p) = false
+  /\ SqlCol.parse_col (SqlCol.emit_col p) = p.
+Proof. exact SqlColFkProofs.col_roundtrip_fk. Qed.
+Print Assumptions C05_column_fk_marker.
+
 (* a non-None default on a non-Optional column: NOT NULL, default kept, the description comes back with a full stop *)
 Theorem C05_column_default : forall b d v, b <> SqlCol.BDict -> SqlColProofs.plain_doc d = true -> SqlCol.is_none_default (SqlCol.DVal v) = false ->
   let p := {| SqlCol.p_typ := {| SqlCol.t_opt := false; SqlCol.t_base := b |}; SqlCol.p_doc := Some d; SqlCol.p_default := Some (SqlCol.DVal v) |} in
